@@ -138,7 +138,7 @@ func c09programs(seed uint64, thorough bool) []c09prog {
 		}
 	}
 	// 3. seeded random programs: 2..8 goroutines, 1..12 calls each, fresh or warmed up
-	N := 700
+	N := 1300
 	if thorough {
 		N = 20000
 	}
